@@ -20,6 +20,7 @@ import (
 func init() {
 	customKinds["panic_sites"] = panicSites
 	customKinds["file_text_has"] = fileTextHas
+	customKinds["callgraph_text_has"] = callgraphTextHas
 }
 
 var wsRe = regexp.MustCompile(`\s+`)
@@ -383,6 +384,69 @@ func fileTextHas(it Item) (string, error) {
 	}
 	v := "false"
 	if re.MatchString(wsRe.ReplaceAllString(string(b), " ")) {
+		v = "true"
+	}
+	return fmt.Sprintf("Definition %s : bool := %s.", it.Coq, v), nil
+}
+
+// callgraphTextHas: does Regex match the normalised text of Func or of any function / method of the same package
+// reachable from it by calls (matched by name, depth <= 4)? A statement that is moved verbatim into a helper called
+// from Func keeps the fact.
+func callgraphTextHas(it Item) (string, error) {
+	p, err := loadPkg(it.Pkg)
+	if err != nil {
+		return "", err
+	}
+	re, err := regexp.Compile(it.Regex)
+	if err != nil {
+		return "", err
+	}
+	byName := map[string][]*ast.FuncDecl{}
+	for _, f := range p.files {
+		for _, d := range f.Decls {
+			if fd, ok := d.(*ast.FuncDecl); ok {
+				byName[fd.Name.Name] = append(byName[fd.Name.Name], fd)
+			}
+		}
+	}
+	start := findFunc(p, it.Func)
+	if start == nil {
+		return "", fmt.Errorf("function %s not found in %s", it.Func, it.Pkg)
+	}
+	seen := map[*ast.FuncDecl]bool{}
+	hit := false
+	var visit func(fd *ast.FuncDecl, depth int)
+	visit = func(fd *ast.FuncDecl, depth int) {
+		if seen[fd] || depth > 4 || hit {
+			return
+		}
+		seen[fd] = true
+		if re.MatchString(funcText(p, fd)) {
+			hit = true
+			return
+		}
+		if fd.Body == nil {
+			return
+		}
+		ast.Inspect(fd.Body, func(n ast.Node) bool {
+			if ce, ok := n.(*ast.CallExpr); ok {
+				name := ""
+				switch f := ce.Fun.(type) {
+				case *ast.Ident:
+					name = f.Name
+				case *ast.SelectorExpr:
+					name = f.Sel.Name
+				}
+				for _, callee := range byName[name] {
+					visit(callee, depth+1)
+				}
+			}
+			return true
+		})
+	}
+	visit(start, 0)
+	v := "false"
+	if hit {
 		v = "true"
 	}
 	return fmt.Sprintf("Definition %s : bool := %s.", it.Coq, v), nil
